@@ -61,6 +61,9 @@ func vC17Command(name string, arg ...string) *exec.Cmd {
 }
 
 func vC17Start(c *exec.Cmd) error {
+	if vBG != nil {
+		return vBGStart(c)
+	}
 	if vC17 != nil {
 		vC17.started++
 	}
@@ -68,6 +71,9 @@ func vC17Start(c *exec.Cmd) error {
 }
 
 func vC17WaitOrStop(ctx context.Context, cmd *exec.Cmd, killDelay time.Duration) error {
+	if vBG != nil {
+		return vBGWait(ctx, cmd, killDelay)
+	}
 	if vC17 == nil {
 		return nil
 	}
